@@ -1081,3 +1081,104 @@ def c17_closure(tier, seed):
     return {'name': 'independent-bfs-closure', 'evaluations': n, 'distinct_nontrivial': distinct, 'violations': viol, 'samples': samples,
             'bound': '%d seed sets of 1..2 small molecules x %d rule sets of bond-scission SMARTS' % (len(seedsets), len(rulesets)),
             'rule': 'a case is (seed set, rule set); distinct by construction'}
+
+
+# ---------------------------------------------------------------------------------------------- C15
+def c15_histories(tier, seed):
+    """random interleavings of {load, decompose, estimate from an earlier decomposition, evaluate (with / without the elemental
+    reference), merge a library} over three libraries; every result is compared with the same single operation on freshly
+    loaded objects, and the libraries' data are fingerprinted before and after"""
+    import pgradd.ThermoChem  # noqa
+    from pgradd.GroupAdd.Library import GroupLibrary
+    rnd = random.Random(seed)
+    libs = ['BensonGA', 'XieGA2022', 'GRWSurface2018']
+    mols = {'BensonGA': ['CC', 'CCO', 'C=CC', 'CC(C)C', 'C1CCCCC1', 'CCCC'], 'XieGA2022': ['CC', 'CCC', '[Ru]C([Ru])C([Ru])([Ru])C', 'CC(C)(C)C'],
+            'GRWSurface2018': ['C([Pt])C', '[Pt]C([Pt])C([Pt])([Pt])C=O', 'C([Pt])C[Pt]', 'C(=O)([Pt])O']}
+    nhist = 6 if tier == 'quick' else 40
+    viol, n, distinct, samples = [], 0, 0, []
+    ref_cache = {}
+
+    def fresh_ref(libname, smi, what, T, se):
+        key = (libname, smi, what, T, se)
+        if key not in ref_cache:
+            lib = real.load(libname, fresh=True)
+            with real.quiet():
+                d = lib.GetDescriptors(smi)
+                if what == 'descriptors':
+                    ref_cache[key] = ('ok', {str(k): v for k, v in d.items()})
+                else:
+                    est = lib.Estimate(d, 'thermochem')
+                    ref_cache[key] = real.outcome(getattr(est, what), T, **({'S_elements': se} if what == 'get_SoR' else {}))
+        return ref_cache[key]
+
+    def fp(lib):
+        return tuple(sorted((str(g), lib[g]['thermochem'].yaml_format()) for g in lib if 'thermochem' in lib[g]))
+    for h in range(nhist):
+        live = {}
+        decomp = []      # (libname, smiles, descriptors)
+        last_decomposed = {}
+        L = rnd.randint(2, 12) if tier == 'quick' else rnd.randint(2, 40)
+        trace = []
+        fps0 = {}
+        for step in range(L):
+            op = rnd.choice(['load', 'decompose', 'decompose', 'estimate', 'estimate', 'merge'])
+            if op == 'load' or not live:
+                name = rnd.choice(libs)
+                live[name] = real.load(name, fresh=True)
+                fps0[name] = fp(live[name])
+                last_decomposed[name] = None     # a new library object has decomposed nothing yet
+                trace.append(('load', name))
+                continue
+            name = rnd.choice(list(live))
+            lib = live[name]
+            if op == 'decompose':
+                smi = rnd.choice(mols[name])
+                with real.quiet():
+                    d = lib.GetDescriptors(smi)
+                got = ('ok', {str(k): v for k, v in d.items()})
+                decomp.append((name, smi, d))
+                last_decomposed[name] = smi
+                trace.append(('decompose', name, smi))
+                n += 1
+                want = fresh_ref(name, smi, 'descriptors', None, None)
+                if got != want and len(viol) < 10:
+                    viol.append({'id': 'h%d-s%d' % (h, step), 'input': {'history': trace[:]}, 'observed': got, 'expected': want})
+            elif op == 'estimate' and any(x[0] == name for x in decomp):
+                nm, smi, d = rnd.choice([x for x in decomp if x[0] == name])
+                what = rnd.choice(['get_HoRT', 'get_SoR', 'get_CpoR', 'get_SoR'])
+                se = rnd.choice([None, True]) if what == 'get_SoR' else None
+                with real.quiet():
+                    est = lib.Estimate(d, 'thermochem')
+                r = est.get_range() or (298.15, 298.15)
+                T = r[0]
+                got = real.outcome(getattr(est, what), T, **({'S_elements': se} if what == 'get_SoR' else {}))
+                trace.append(('estimate', name, smi, what, se))
+                n += 1
+                want = fresh_ref(name, smi, what, T, se)
+                same = got[0] == want[0] and (got[0] == 'exc' or real.close(got[1], want[1], 1e-12, 1e-12))
+                if not same:
+                    cls = 'K1:library-name-channel' if (se and last_decomposed.get(name) != smi) else None
+                    if len(viol) < 10 or cls:
+                        viol.append({'id': 'h%d-s%d' % (h, step), 'cls': cls, 'input': {'history': trace[:]}, 'observed': got, 'expected': want,
+                                     'script': "import pgradd.ThermoChem\nfrom pgradd.GroupAdd.Library import GroupLibrary\nlib = GroupLibrary.Load(%r)\nd1 = lib.GetDescriptors(%r)\nlib.GetDescriptors(%r)\n"
+                                               "print(lib.Estimate(d1, 'thermochem').get_SoR(%r, S_elements=True))\n" % (name, smi, last_decomposed.get(name), T)})
+            elif op == 'merge':
+                other = rnd.choice(libs)
+                tgt = GroupLibrary(lib.scheme, {})
+                with real.quiet():
+                    try:
+                        tgt.Update(lib)
+                        tgt.Update(real.load(other, fresh=True), overwrite=True)
+                    except Exception:    # noqa
+                        pass
+                trace.append(('merge-into-new', name, other))
+        distinct += 1
+        for name, lib in live.items():
+            n += 1
+            if fp(lib) != fps0[name]:
+                viol.append({'id': 'h%d-data-%s' % (h, name), 'input': {'history': trace}, 'observed': 'library data changed', 'expected': 'computing does not alter any library\'s data'})
+        if len(samples) < 2:
+            samples.append(trace[:10])
+    return {'name': 'operation-histories', 'evaluations': n, 'distinct_nontrivial': distinct, 'violations': viol, 'samples': samples,
+            'bound': '%d random histories of length 2..%d over 3 libraries, each result compared with the single operation on freshly loaded objects' % (nhist, 12 if tier == 'quick' else 40),
+            'rule': 'a case is one history; distinct by seed'}
